@@ -7,6 +7,46 @@ from common import make_oid
 KEYS = ['a', 'b', 'c', 'x']
 STRS = ['', 'a', 'b', 'ab', 'x', 'A', '1']
 BASE_DATE = datetime.datetime(2020, 1, 1, 12, 0, 0)
+DATE_MODE = ['plain']      # 'rich': microseconds and utc offsets (C18)
+
+
+class _Off(datetime.tzinfo):
+    def __init__(self, minutes):
+        self.m = minutes
+
+    def utcoffset(self, dt):
+        return datetime.timedelta(minutes=self.m)
+
+    def dst(self, dt):
+        return datetime.timedelta(0)
+
+    def tzname(self, dt):
+        return 'off%d' % self.m
+
+    def __deepcopy__(self, memo):
+        return self
+
+
+def rich_date(rng, base=None):
+    d = base if base is not None else BASE_DATE + datetime.timedelta(seconds=rng.choice([0, 1, 60, -5]))
+    d = d.replace(tzinfo=None)
+    d = d.replace(microsecond=(d.microsecond // 1000) * 1000 + rng.choice([0, 0, 1, 999, 500]))
+    if rng.random() < 0.25:
+        d = d.replace(microsecond=rng.choice([0, 999, 1000, 999999, 123456]))
+    if rng.random() < 0.5:
+        off = rng.choice([0, 60, -300, 330, 840, -720])
+        d = (d + datetime.timedelta(minutes=off)).replace(tzinfo=_Off(off))
+    return d
+
+
+def same_instant(rng, d):
+    """another datetime denoting the same millisecond as d"""
+    naive = d if d.tzinfo is None else (d - d.utcoffset()).replace(tzinfo=None)
+    naive = naive.replace(microsecond=(naive.microsecond // 1000) * 1000 + rng.choice([0, 1, 999]))
+    if rng.random() < 0.6:
+        off = rng.choice([0, 60, -300, 330])
+        return (naive + datetime.timedelta(minutes=off)).replace(tzinfo=_Off(off))
+    return naive
 
 
 def scalar(rng, bools=True, oids=True, dates=True):
@@ -21,6 +61,8 @@ def scalar(rng, bools=True, oids=True, dates=True):
         return rng.choice([0.0, 1.0, 1.5, 2.5, -0.5, 3.0, 0.125])
     if k < 0.80:
         return rng.choice(STRS)
+    if DATE_MODE[0] == 'rich' and k >= 0.62 and k < 0.88 and dates:
+        return rich_date(rng)
     if k < 0.88 and dates:
         return BASE_DATE + datetime.timedelta(seconds=rng.choice([0, 1, 60, -5]))
     if k < 0.94 and oids:
@@ -136,6 +178,8 @@ def operand(rng, doc, **kw):
     if k < 0.62:
         vals = sub_values(doc)
         v = rng.choice(vals)
+        if isinstance(v, datetime.datetime) and DATE_MODE[0] == 'rich':
+            return same_instant(rng, v)
         if not (isinstance(v, dict) and '_id' in v):
             return v if k < 0.45 else perturb(rng, v, **kw)
     if k < 0.70:
